@@ -1,80 +1,34 @@
+import ScionVerif.Model.SimRouter
 /-!
-# Control-plane path segments (beacons) as the combinator sees them
+# Beaconing: hop-field MAC chaining along a path segment
 
-Mirrors the parts of `sciparse::segment::{PathSegment, SegmentInfo, AsEntry, HopEntry, PeerEntry,
-SegmentHopField}` that `path::combinator` reads.  Core-only (linked into the model driver).
-
-* integers are unbounded `Nat`; the Rust widths are in the comments and casts are explicit in the model;
-* the hop-field MAC (6 bytes) is an opaque value copied through; only its first two bytes enter the
-  computation (SegID accumulator), so it is carried as the big-endian number of the 6 bytes;
-* `PathSegment::id()` (SHA-256 over `(local, cons_ingress, cons_egress)` of every AS entry) is *not*
-  computed by the model: it enters as an opaque ordered key `id` supplied with each segment
-  (the harness passes the real hash, read as a big-endian number, so `<` on `Nat` is `Ord` on `[u8; 32]`);
-* `AsEntry::{next, extensions, unsigned_extensions}`, `SegmentInfo::encoded` and signatures are never
-  read by the combinator and are not modelled.
+Mirrors `AsEntry::update_macs` / `mac_chaining_beta` (sciparse `scion/segment.rs`, `mac.rs`): the MAC of the
+k-th AS entry is computed over the accumulator β_k, and β_{k+1} = β_k XOR (first two bytes of MAC_k).
+Peer entries are not modelled here (peering is a known finding of C01/C13).
 -/
-namespace ScionVerif.Comb
+namespace ScionVerif.Router
 
-/-- `SegmentHopField` -/
-structure HopF where
-  /-- `expiration_units : u8` -/
-  exp : Nat
-  /-- `cons_ingress : u16` -/
-  ingress : Nat
-  /-- `cons_egress : u16` -/
-  egress : Nat
-  /-- `mac : [u8; 6]` as a big-endian number -/
-  mac : Nat
-deriving DecidableEq, Repr, Inhabited
-
-/-- first two MAC bytes as `u16::from_be_bytes([mac[0], mac[1]])` -/
-def HopF.macHi (h : HopF) : Nat := h.mac / 4294967296 % 65536
-
-/-- `PeerEntry` -/
-structure PeerE where
-  /-- `peer : IsdAsn` (u64) -/
-  peer : Nat
-  /-- `peer_interface : u16` -/
-  peerIf : Nat
-  /-- `peer_mtu : u16` -/
-  peerMtu : Nat
-  hop : HopF
-deriving DecidableEq, Repr, Inhabited
-
-/-- `AsEntry` (with its `HopEntry` flattened) -/
-structure AsE where
-  /-- `local : IsdAsn` (u64) -/
+/-- what one AS contributes to a segment during beaconing -/
+structure Entry where
   ia : Nat
-  /-- `mtu : u32` -/
-  mtu : Nat
-  /-- `hop_entry.ingress_mtu : u16` -/
-  ingressMtu : Nat
-  /-- `hop_entry.hop_field` -/
-  hop : HopF
-  /-- `peer_entries` -/
-  peers : List PeerE
-deriving DecidableEq, Repr, Inhabited
+  key : List UInt8
+  consIngress : Nat
+  consEgress : Nat
+  exp : Nat
+deriving Repr
 
-/-- `PathSegment` + its `SegmentID` -/
-structure Seg where
-  /-- `info.timestamp : u32` -/
-  ts : Nat
-  /-- `info.segment_id : u16` (initial SegID accumulator β₀) -/
-  segid : Nat
-  /-- `as_entries` in construction (beaconing) order -/
-  entries : List AsE
-  /-- `PathSegment::id()` as an opaque ordered key -/
-  id : Nat
-deriving DecidableEq, Repr, Inhabited
+/-- hop fields of a segment with info timestamp `ts`, starting with accumulator `beta` -/
+def mkHops (macf : MacF) (ts : Nat) : Nat → List Entry → List Hop
+  | _, [] => []
+  | beta, e :: es =>
+    let m := macf e.key beta ts e.exp e.consIngress e.consEgress
+    { inAlert := false, egAlert := false, exp := e.exp, consIngress := e.consIngress,
+      consEgress := e.consEgress, mac := m } :: mkHops macf ts (betaStep beta m) es
 
-/-- `graph::InputSegment` : a segment tagged core / non-core -/
-structure InSeg where
-  core : Bool
-  seg : Seg
-deriving DecidableEq, Repr, Inhabited
+/-- the accumulator after `k` entries -/
+def betaAt (macf : MacF) (ts : Nat) : Nat → List Entry → Nat → Nat
+  | beta, _, 0 => beta
+  | beta, [], _ + 1 => beta
+  | beta, e :: es, k + 1 => betaAt macf ts (betaStep beta (macf e.key beta ts e.exp e.consIngress e.consEgress)) es k
 
-def Seg.firstIa (s : Seg) : Option Nat := s.entries.head?.map (·.ia)
-def Seg.lastIa (s : Seg) : Option Nat := s.entries.getLast?.map (·.ia)
-def Seg.len (s : Seg) : Nat := s.entries.length
-
-end ScionVerif.Comb
+end ScionVerif.Router
